@@ -348,7 +348,7 @@ pub fn threshold_family(deep: bool, osc: bool) -> Vec<Vec<u8>> {
     }
     if deep || osc {
         // a string sequence whose payload ends right at a typical buffer size, then its terminator and visible text - ONE call
-        let ls: &[usize] = if deep { &[4088, 4089, 4090, 4200] } else { &[4090] };
+        let ls: &[usize] = if deep { &[4088, 4089, 4090, 4200] } else { &[4100] };
         for &l in ls {
             let mut b = b"\x1b]52;c;".to_vec();
             b.extend((0..l).map(|i| b'A' + (i % 26) as u8));
